@@ -457,9 +457,9 @@ class Program:
         o = self.oracle
         if self.started:
             o.hooked = False
-            if o.tracker is not None:
-                o.tracker.stop_end()
         o.end_op()
+        if self.started and o.tracker is not None:
+            o.tracker.stop_end()
         if self.started:
             self.started = False
             self.probes["_stopped_once"] = 1
